@@ -21,7 +21,7 @@ import numpy as np
 
 from harness import classify, export as X, progcheck as PC, programs as P, trace as T
 
-KNOWN = ("swv-layout-drift", "take-through-broadcast")
+KNOWN = ("swv-layout-drift", "take-through-broadcast", "swv-nested-wrong-values", "broadcast-axis-zero-width-chunk")
 WATCHDOG_S = 20
 
 
